@@ -89,6 +89,19 @@ func gen(tier string, seed int64) []mon.Case {
 			}
 		}
 	}
+	// the same NETCONF sessions with a slow log sink on the client and a device that sends each reply
+	// in two halves: spreads the driver's writes and the reply out in time (deterministic schedule)
+	pn := 1
+	if tier == "thorough" {
+		pn = 4
+	}
+	for i := 0; i < pn; i++ {
+		for _, t := range []string{"system-ssh", "standard"} {
+			for _, v := range []string{"1.0", "1.1"} {
+				add(Desc{Kind: "e2e-netconf", T: t, Version: v, ReadSize: rss[(i+int(seed))%3], Paced: true})
+			}
+		}
+	}
 	return cs
 }
 
